@@ -25,6 +25,9 @@ Reading guide.  A Python set is enumerated in some permutation `σ` of its eleme
                             depend on the numbering / predecessor-list order only in the insertion order of the
                             first-level contents (`derived_sequence_order_irrelevant`); the insertion order of
                             `graph.nodes` matters (`derived_sequence_nodes_order_matters`).
+  * if_struct           : modelled whole (Model/IfStruct.lean, stream site-ifst) with the enumeration of the set
+                            `unresolved` and the order of the dict `idoms` as parameters; `if_struct_order_irrelevant`
+                            (+ `_rpo` for the `compute_rpo` numbers of C19), `if_follow_tie_order_matters`.
 The whole-pipeline statement ("the text is a function of the bytecode only") is NOT a theorem here:
 the rest of the decompiler is assumed deterministic given deterministic inputs (lists and dicts are
 ordered in CPython); that part is covered by the search leg only.  See manifest/C22.json.
@@ -34,6 +37,7 @@ import AgVerif.Proof.LoopFollow
 import AgVerif.Proof.RpoDom
 import AgVerif.Proof.Intervals
 import AgVerif.Proof.DerivedSeq
+import AgVerif.Proof.IfStruct
 namespace AgVerif.C22
 open AgVerif.Order List
 open AgVerif.Spec (Reach Dominates SDom)
@@ -456,6 +460,43 @@ theorem derived_sequence_nodes_order_matters :
       (fun l => l.map (fun s => s.heads.length)) = some [4, 3, 1] := by
   refine ⟨by decide, by decide +kernel, by decide +kernel, by decide +kernel, by decide +kernel⟩
 
+/-! ## `if_struct` (control_flow.py; Model/IfStruct.lean, Proof/IfStruct.lean)
+
+The follow node of a conditional is `max(ldominates, key=num)` over the dict `idoms` (whose insertion order comes
+out of the set iterations of `dom_lt`), then the set `unresolved` is iterated (site B1 of the generated list). -/
+
+/-- `if_struct` returns the same `follow['if']` attributes and the same set for every enumeration of the set
+    `unresolved` (at every iteration) and every insertion order of the dict `idoms`, when the numbers of the
+    keys of `idoms` are pairwise different -/
+theorem if_struct_order_irrelevant (ord₁ ord₂ : List Nat → List Nat) (h₁ : ∀ l, ord₁ l ~ l) (h₂ : ∀ l, ord₂ l ~ l)
+    {i₁ i₂ : List (Nat × Nat)} (hi : i₁ ~ i₂) (post : List Nat) (isCond : Nat → Bool) (nrev num : Nat → Nat)
+    (hinj : ∀ a ∈ i₁.map Prod.fst, ∀ b ∈ i₁.map Prod.fst, num a = num b → a = b) :
+    IfStruct.ifStruct ord₁ post isCond i₁ nrev num = IfStruct.ifStruct ord₂ post isCond i₂ nrev num :=
+  IfStruct.ifStruct_order_irrelevant ord₁ ord₂ h₁ h₂ hi post isCond nrev num hinj
+
+/-- the hypothesis holds for the numbers of `compute_rpo` (model of C19) on a graph all of whose nodes are
+    reachable: they are pairwise different (`C19.rpo_perm`) -/
+theorem if_struct_order_irrelevant_rpo (g : Digraph) (hwf : g.WF) (hroot : g.Rooted) (rp : Rpo.Result)
+    (hr : Rpo.computeRpo g = some rp) (ord₁ ord₂ : List Nat → List Nat) (h₁ : ∀ l, ord₁ l ~ l)
+    (h₂ : ∀ l, ord₂ l ~ l) {i₁ i₂ : List (Nat × Nat)} (hi : i₁ ~ i₂) (hk : ∀ p ∈ i₁, p.1 < g.n)
+    (post : List Nat) (isCond : Nat → Bool) (nrev : Nat → Nat) :
+    IfStruct.ifStruct ord₁ post isCond i₁ nrev rp.num = IfStruct.ifStruct ord₂ post isCond i₂ nrev rp.num := by
+  apply IfStruct.ifStruct_order_irrelevant ord₁ ord₂ h₁ h₂ hi
+  have hnd : ((List.range g.n).map rp.num).Nodup :=
+    (C19.rpo_perm g hwf hroot rp hr).nodup_iff.mpr (List.nodup_range' (step := 1) (by omega))
+  intro a ha b hb hab
+  obtain ⟨p, hp, rfl⟩ := List.mem_map.mp ha
+  obtain ⟨q, hq, rfl⟩ := List.mem_map.mp hb
+  exact List.inj_on_of_nodup_map hnd (List.mem_range.mpr (hk p hp)) (List.mem_range.mpr (hk q hq)) hab
+
+/-- without pairwise different numbers the order of `idoms` decides the follow node: `max` returns the first
+    maximal candidate -/
+theorem if_follow_tie_order_matters :
+    [(2, 1), (3, 1)] ~ [(3, 1), (2, 1)] ∧
+    (IfStruct.ifStruct id [1] (fun _ => true) [(2, 1), (3, 1)] (fun _ => 2) (fun _ => 7)).follow 1 = some 2 ∧
+    (IfStruct.ifStruct id [1] (fun _ => true) [(3, 1), (2, 1)] (fun _ => 2) (fun _ => 7)).follow 1 = some 3 := by
+  refine ⟨by decide, by decide, by decide⟩
+
 /-! ## non-vacuity -/
 
 -- a permutation that is not the identity satisfies the hypotheses of the B theorems
@@ -561,5 +602,13 @@ example : (⟨dsNest.preds, [2, 3, 4, 5], dsNest.nodes, 1⟩ : DerivedSeq.Level)
     (⟨fun n => (dsNest.preds n).reverse, [5, 4, 3, 2], dsNest.nodes, 1⟩ : DerivedSeq.Level).order ∧
     ∀ n, dsNest.preds n ~ (fun n => (dsNest.preds n).reverse) n :=
   ⟨by decide, fun n => (List.reverse_perm _).symm⟩
+
+-- if_struct: post order 4,3,2,1; conditionals 1,2,3; node 4 (two predecessors) is immediately dominated by 1;
+-- 3 and 2 stay unresolved until 1 gets its follow node 4 and 1.num < 2.num, 3.num < 4.num
+def ifEx : IfStruct.St :=
+  IfStruct.ifStruct List.reverse [4, 3, 2, 1] (fun n => n ≤ 3) [(2, 1), (3, 2), (4, 1)]
+    (fun n => if n = 4 then 2 else 1) id
+example : (ifEx.follow 1, ifEx.follow 2, ifEx.follow 3, ifEx.unresolved) = (some 4, some 4, some 4, []) := by
+  decide
 
 end AgVerif.C22
